@@ -654,10 +654,14 @@ impl Decryptor {
         let coeff_count = parms.poly_modulus_degree();
 
         // Aquire read lock
+        #[cfg(feature = "verif-hooks")]
+        crate::verif::yield_point("dec.sk.before_read");
         let read_lock = self.secret_key_array.read().unwrap();
         assert!(read_lock.len() % (coeff_count * coeff_modulus_size) == 0);
         let old_size = read_lock.len() / (coeff_count * coeff_modulus_size);
         let new_size = old_size.max(max_power);
+        #[cfg(feature = "verif-hooks")]
+        crate::verif::event("dec.sk.read", &[old_size as u64, max_power as u64]);
         if old_size == new_size {
             return;
         }
@@ -671,6 +675,8 @@ impl Decryptor {
         secret_key_array[..old_size * poly_size].copy_from_slice(&read_lock[..old_size * poly_size]);
         // Drop lock
         drop(read_lock);
+        #[cfg(feature = "verif-hooks")]
+        crate::verif::yield_point("dec.sk.before_compute");
         
         // Since all of the key powers in secret_key_array_ are already NTT transformed, to get the next one we simply
         // need to compute a dyadic product of the last one with the first one [which is equal to NTT(secret_key_)].
@@ -687,6 +693,8 @@ impl Decryptor {
         }
 
         // Aquire write lock
+        #[cfg(feature = "verif-hooks")]
+        crate::verif::yield_point("dec.sk.before_write");
         let mut write_lock = self.secret_key_array.write().unwrap();
 
         // Do we still need to update size?
@@ -694,11 +702,15 @@ impl Decryptor {
         let old_size = write_lock.len() / (coeff_count * coeff_modulus_size);
         let new_size = old_size.max(max_power);
         if old_size == new_size {
+            #[cfg(feature = "verif-hooks")]
+            crate::verif::event("dec.sk.write_skip", &[old_size as u64, max_power as u64]);
             return;
         }
 
         // Acquire new array
         *write_lock = secret_key_array;
+        #[cfg(feature = "verif-hooks")]
+        crate::verif::event("dec.sk.write", &[old_size as u64, max_power as u64, (write_lock.len() / (coeff_count * coeff_modulus_size)) as u64]);
         
         // Lock is dropped automatically
     }
@@ -719,8 +731,12 @@ impl Decryptor {
         // Make sure we have enough secret key powers computed
         self.compute_secret_key_array(encrypted_size - 1);
 
+        #[cfg(feature = "verif-hooks")]
+        crate::verif::yield_point("dec.sk.before_use");
         let secret_key_array_binding = self.secret_key_array.read().unwrap();
         let secret_key_array = secret_key_array_binding.as_ref();
+        #[cfg(feature = "verif-hooks")]
+        crate::verif::event("dec.sk.use", &[(secret_key_array_binding.len() / (coeff_count * key_coeff_modulus_size)) as u64, (encrypted_size - 1) as u64]);
         if encrypted_size == 2 {
             unsafe {
                 let c0 = std::slice::from_raw_parts(encrypted.poly(0).as_ptr(), coeff_count * coeff_modulus_size);
